@@ -92,6 +92,8 @@ type ChanObj struct {
 	cp     int
 	closed bool
 	elemT  types.Type
+	sent   int // completed enqueues / dequeues (rendezvous bookkeeping, not journaled)
+	recvd  int
 }
 
 type Tuple []Value
